@@ -42,6 +42,12 @@ CHECKS = {
             "DESIGN.md 4 (C18)"),
 }
 
+CHECKS["C19"] = ("exploration",
+    "Enumeration of all @rule definitions (syntax tree) vs registry, all patterns x generated/corpus probe texts, firing witnesses via counting registry wrappers, all modifier chains to depth 3, all vocabulary unigrams",
+    "The finite parts (rule definitions, pattern tables, modifier chains, vocabulary) are enumerated completely against validity predicates; the 'no zero-length match' clause is explored with Hypothesis/corpus probe texts under overlapped search; 'can fire' is decided by a firing witness per rule.",
+    "Reads ctparse/time/rules.py with ast; the registry is observed (and temporarily wrapped, then restored) in process.",
+    "DESIGN.md 4 (C19)")
+
 NOT_YET = "check not built yet in this round (see DESIGN.md section 4 for the planned generated-input check)"
 
 
